@@ -133,6 +133,13 @@ def _damage(frame, covered_from, rng, thorough):
                 f[pos // 8] ^= 1 << (pos % 8)
         if bytes(f) != frame:
             out.append(("burst16", bytes(f)))
+    # damage confined to the length field (a <=16-bit burst): the receiver then cuts the frame at another place; in particular a
+    # length damaged to zero makes the two bytes after the header the "check bytes" of an empty frame
+    lp = covered_from + 4
+    ln = frame[lp] << 8 | frame[lp + 1]
+    for new_len in sorted({0, 1, 2, max(0, ln - 2), max(0, ln - 1), ln // 2} - {ln}):
+        f = bytearray(frame); f[lp] = new_len >> 8; f[lp + 1] = new_len & 255
+        out.append(("length", bytes(f)))
     for _ in range(60 if thorough else 10):           # damage confined to the check bytes
         f = bytearray(frame)
         f[n - 2] ^= rng.randrange(256); f[n - 1] ^= rng.randrange(256)
@@ -199,6 +206,28 @@ def _special_register_frames(gen, rng):
     return res
 
 
+def _status_frames(gen):
+    """AC status of one AC, zone / group status of four, timer status: framed as a console frames them (to 0xB0 from 0x80)"""
+    import consolesim as cs
+    if gen == 4:
+        import pyairtouch.at4.comms.registry as R
+        import pyairtouch.at4.comms.hdr as HD
+        H = HD.At4Header
+        ops = [cs.at4_ac_status([dict(id=0)]), cs.at4_group_status([dict(id=i, sensor=1) for i in range(4)]), cs.at4_timer_status({0: ((7, 30), None)})]
+    else:
+        import pyairtouch.at5.comms.registry as R
+        import pyairtouch.at5.comms.hdr as HD
+        H = HD.At5Header
+        ops = [cs.at5_ac_status([dict(id=0)]), cs.at5_zone_status([dict(id=i, sensor=1) for i in range(4)]), cs.at5_timer_status([(0, (7, 30), None)])]
+    out = []
+    for op in ops:
+        _, mid, payload = op.split()
+        mid, payload = int(mid, 16), bytes.fromhex(payload)
+        eh = R.INSTANCE.header_encoder.encode(H(0xB0, 0x80, 7, mid, len(payload)))
+        out.append(bytes(eh.header_bytes) + payload + bytes(R.INSTANCE.checksum_calculator.calculate(eh.checksum_data + payload)))
+    return out
+
+
 def _receive_path(ctx, thorough):
     """damaged frames through the real receive path: never delivered; the connection is re-established and a later intact frame is delivered"""
     import sockcheck
@@ -208,9 +237,10 @@ def _receive_path(ctx, thorough):
         cases = frame_try.gen_cases(real, ctx.rng, 8 if thorough else 3, ctx)
         frames = [bytes(b) for (tag, b) in cases if str(tag).startswith("sent") and 10 <= len(b) <= 80]
         ctx.rng.shuffle(frames)
+        frames = _status_frames(gen) + frames      # status frames a console really sends (their empty form is a valid request)
         covered_from = 2 if gen == 4 else 14
         items, meta = [], []
-        for fr in frames[: (12 if thorough else 4)]:
+        for fr in frames[: (16 if thorough else 7)]:
             for kind, dmg in _damage(fr, covered_from, ctx.rng, thorough):
                 lenpos = (6, 7) if gen == 4 else (18, 19)
                 sc = [("net", "accept"), ("open",), ("adv", 8), ("peerbytes", dmg.hex()), ("adv", 4)]
